@@ -42,8 +42,9 @@ def pair_sub(chk, cls, ea, eb, desc, mech, pre=None, wit_extra=None):
             return
         chk.count("equal|" + cls)
         if items[1].get("k") == "str":
-            chk.violation("%s: equal but unhashable: %s" % (desc, items[2]),
-                          dict(obs=obs, steps=steps), mech)
+            chk.violation("%s: equal but hash() raises: %s" %
+                          (desc, items[2].get("v")),
+                          dict(obs=obs, steps=steps), "hash-raises|" + cls)
             return
         same_hash = items[1].get("v")
         n = val(items[2])
@@ -196,6 +197,15 @@ def run(chk, R, tier, seed):
         add(pair_sub(chk, "converter-temperature", Q(num(x), u),
                      Q(num(y), v), "%s %s and %s %s" % (x, u, y, v),
                      "converter-equality-hash"))
+    # 6b the same temperature twice, held as Decimal and as Fraction (the
+    # hash of types without reference unit takes another path)
+    for _ in range(40 if tier == "quick" else 400):
+        u = rng.choice(list(TEMP))
+        x = F(rng.randint(-5000, 5000), rng.choice([1, 2, 4, 10, 100]))
+        add(pair_sub(chk, "quantity-twins", Q(num(x, "D"), u),
+                     Q(num(x, "F"), u), "%s %s as Decimal and as Fraction" %
+                     (x, u), "quantity-twins"))
+        chk.count("twins in a type without reference unit")
     # 7 random pairs
     for _ in range(300 if tier == "quick" else 5000):
         s1, s2 = rng.choice(syms), rng.choice(syms)
